@@ -41,7 +41,18 @@ func FromStream(stream *glyphdata.Stream) (*type1.Font, error) {
 	var t1Font *type1.Font
 	var parseErr error
 
+	// The parser may stop before it has consumed all the data (in particular
+	// when the font program is malformed).  Closing the read end releases the
+	// producer, which would otherwise stay blocked in a pipe write forever;
+	// then wait until it has finished.
+	done := make(chan struct{})
+	defer func() {
+		r.Close()
+		<-done
+	}()
+
 	go func() {
+		defer close(done)
 		defer w.Close()
 		err := stream.WriteTo(w, nil)
 		if err != nil {
